@@ -1097,6 +1097,7 @@ type c10Case struct {
 	PathS  string    `json:"paths,omitempty"`
 	Create int       `json:"create,omitempty"`
 	Repls  []c10Repl `json:"repls,omitempty"`
+	ById   *c10Id    `json:"byId,omitempty"` // patch entry without target: the id of the patch body
 }
 
 // ---------- regexp ----------
@@ -1420,6 +1421,99 @@ func c10RunSelect(run *Run, c c10Case) {
 	}
 	cs := c10ClusterScoped(nodes)
 	run.AddCase(fmt.Sprintf("(KSelect %s %s %s %s %s [%s])", tab.coq(), coqGvks(cs), c.Sel.coq(), docs, cls, strings.Join(idx, "; ")), c, len(got) > 0)
+}
+
+// ---------- PatchTransformer: which resources a patches: entry applies to ----------
+func c10PatchConfig(c c10Case) string {
+	ann := "      annotations:\n        c10-patched: \"yes\"\n"
+	if c.Sel != nil {
+		b, _ := json.Marshal(c.Sel)
+		return "target: " + string(b) + "\npatch: |-\n  apiVersion: v1\n  kind: NotImportant\n  metadata:\n    name: not-important\n" + strings.ReplaceAll(ann, "      ", "    ")
+	}
+	av := c.ById.Version
+	if c.ById.Group != "" {
+		av = c.ById.Group + "/" + c.ById.Version
+	}
+	body := "patch: |-\n  apiVersion: " + av + "\n  kind: " + c.ById.Kind + "\n  metadata:\n    name: " + yq(c.ById.Name) + "\n"
+	if c.ById.Namespace != "" {
+		body += "    namespace: " + yq(c.ById.Namespace) + "\n"
+	}
+	return body + strings.ReplaceAll(ann, "      ", "    ")
+}
+
+func c10RunPatch(run *Run, c c10Case) {
+	m, err := c10ResMap(c.Docs)
+	if err != nil {
+		run.Count("patch", "load-error")
+		run.Meta.Skipped++
+		return
+	}
+	nodes := c10ResMapNodes(m)
+	docs, ok := coqNodes(nodes)
+	before, okb := c10TextsOfNodes(nodes)
+	for _, n := range nodes {
+		if c10HasDupKeys(n.YNode()) {
+			ok = false
+		}
+	}
+	extraGvk := []resid.Gvk{}
+	if c.ById != nil {
+		extraGvk = append(extraGvk, resid.Gvk{Group: c.ById.Group, Version: c.ById.Version, Kind: c.ById.Kind})
+	}
+	csTerm := coqGvks(c10ClusterScoped(nodes, extraGvk...))
+	p := krusty.VerifC10Transformer("PatchTransformer")
+	cls, _ := protect(func() error {
+		h := resmap.NewPluginHelpers(nil, nil, resmap.NewFactory(c10RF), nil)
+		if e := p.Config(h, []byte(c10PatchConfig(c))); e != nil {
+			return fmt.Errorf("config: %w", e)
+		}
+		return p.Transform(m)
+	})
+	run.Count("patch", cls)
+	changed := []string{}
+	nchanged := 0
+	if cls == ClsOk {
+		after, oka := c10TextsOfNodes(c10ResMapNodes(m))
+		if !oka || !okb || len(after) != len(before) {
+			run.Meta.Skipped++
+			return
+		}
+		for i := range before {
+			if before[i] != after[i] {
+				changed = append(changed, coqNat(i))
+				nchanged++
+			}
+		}
+	}
+	tab := newPtab()
+	entry := ""
+	if c.Sel != nil {
+		for _, pat := range []string{c.Sel.Group, c.Sel.Version, c.Sel.Kind, c.Sel.Name, c.Sel.Namespace} {
+			tab.add(c10AnchorText(pat))
+		}
+		for _, t := range []string{c.Sel.Lab, c.Sel.Ann} {
+			if !c10SimpleLsel(t) {
+				if _, e := kyaml.NewMapRNode(nil).MatchesLabelSelector(t); e == nil {
+					run.Count("patch", "selector-outside-grammar")
+					run.Meta.Skipped++
+					return
+				}
+			}
+		}
+		entry = "(PTarget " + c.Sel.coq() + ")"
+		run.Count("patch", "targeted")
+	} else {
+		entry = "(PById " + c.ById.coq() + ")"
+		run.Count("patch", "by-id")
+	}
+	if !ok || tab.bad {
+		run.Meta.Skipped++
+		return
+	}
+	if nchanged > 0 {
+		run.Count("patch", fmt.Sprintf("changed=%d", nchanged))
+	}
+	run.AddCase(fmt.Sprintf("(KPatch %s %s %s %s %s [%s])", tab.coq(), csTerm, entry, docs, cls, strings.Join(changed, "; ")), c, nchanged > 0)
 }
 
 // ---------- SmarterPathSplitter ----------
@@ -2068,6 +2162,8 @@ func c10Exec1(run *Run, c c10Case, imgFs, repFs types.FsSlice) {
 		c10RunSelect(run, c)
 	case "split":
 		c10RunSplit(run, c)
+	case "patch":
+		c10RunPatch(run, c)
 	}
 }
 
@@ -2216,6 +2312,71 @@ func runC10(run *Run, rng *Rng, tier string) error {
 	for i := 0; i < 80*scale; i++ {
 		g := rng.Fork()
 		cases = append(cases, c10Case{Kind: "split", PathS: c10GenSplitPath(g)})
+	}
+	// ---- patches entries (targeted / by-name)
+	for i := 0; i < 90*scale; i++ {
+		g := rng.Fork()
+		// regular container shapes only: the strategic merge itself (C04) must not fail on the document
+		l := c10GenResList(g, 1+g.Intn(6), false)
+		if g.Chance(3) { // malformed previous-id annotations: Resource.PrevIds panics
+			l[0].Prev = nil
+			l[0].Annos = append(l[0].Annos, [2]string{"internal.config.kubernetes.io/previousNames", "a,b"},
+				[2]string{"internal.config.kubernetes.io/previousNamespaces", "default"},
+				[2]string{"internal.config.kubernetes.io/previousKinds", l[0].Kind})
+		}
+		c := c10Case{Kind: "patch", Docs: c10Texts(l)}
+		x := l[g.Intn(len(l))]
+		if g.Chance(50) {
+			s := c10GenSel(g)
+			if g.Chance(60) {
+				s = c10Sel{c10Id: c10Id{Name: c10PickN(g, []string{x.Name, x.Name + "|" + l[g.Intn(len(l))].Name, x.Name + ".*", "x|app", "ax|x"})}}
+				if g.Chance(40) {
+					s.Kind = x.Kind
+				}
+				if g.Chance(25) && len(x.Labels) > 0 {
+					s.Lab = x.Labels[0][0] + "=" + x.Labels[0][1]
+				}
+			}
+			c.Sel = &s
+		} else {
+			// by name: prefer a resource that carries previous ids (a patch may name the ORIGINAL id)
+			withPrev := []c10Res{}
+			for _, y := range l {
+				if len(y.Prev) > 0 {
+					withPrev = append(withPrev, y)
+				}
+			}
+			usePrev := false
+			if len(withPrev) > 0 && g.Chance(45) {
+				x = withPrev[g.Intn(len(withPrev))]
+				usePrev = g.Chance(75)
+			}
+			id := c10Id{Kind: x.Kind, Name: x.Name, Namespace: x.Namespace}
+			if i := strings.Index(x.APIVersion, "/"); i > 0 {
+				id.Group, id.Version = x.APIVersion[:i], x.APIVersion[i+1:]
+			} else {
+				id.Version = x.APIVersion
+			}
+			k := g.Intn(8)
+			if usePrev {
+				k = 0
+			}
+			switch k {
+			case 0:
+				if len(x.Prev) > 0 { // a previous id of the resource
+					pi := g.Intn(len(x.Prev))
+					id.Name, id.Namespace, id.Kind = x.Prev[pi][0], x.Prev[pi][1], x.Prev[pi][2]
+				}
+			case 1:
+				id.Name = c10PickN(g, c10Names) // possibly another / no resource
+			case 2:
+				id.Namespace = c10PickN(g, []string{"", "default", "ns", "ns-1"})
+			case 3:
+				id.Version = "v1beta1"
+			}
+			c.ById = &id
+		}
+		cases = append(cases, c)
 	}
 	// ---- PathMatcher / replacement (through child processes when hang-prone)
 	for i := 0; i < 260*scale; i++ {
